@@ -58,7 +58,7 @@ Section Hist.
     intros Hb H. destruct (draw_valid_nonneg _ _ _ _ Hb H) as [_ Hr].
     eapply Forall_impl; [|exact Hr]. cbn. intros v Hv. change mod_f64 with M in Hv.
     destruct (f64_new_spec v) as [H1 H2]; [unfold M in *; lia|].
-    split; [assumption|]. rewrite H2. apply Z.mod_small. assumption.
+    split; [exact H1|]. etransitivity; [exact H2|]. apply Z.mod_small. exact Hv.
   Qed.
 
   Theorem draw_integers_ok_inv c c' n dom nonce vals : 1 <= n ->
@@ -85,7 +85,7 @@ Section Hist.
     cbn [Coin.run] in Hx. destruct (step c o) as [c1 x] eqn:Es. destruct (run c1 ops) as [c2 xs] eqn:Er.
     cbn [snd] in Hx. destruct i as [|i]; cbn [nth_error] in *.
     - injection Ho as ->. injection Hx as ->. cbn [Coin.step] in Es.
-      destruct (draw k c) as [c' r] eqn:Ed. injection Es as <- <-. eapply draw_valid; eassumption.
+      destruct (draw k c) as [c' r] eqn:Ed. injection Es as _ ->. eapply draw_valid; eassumption.
     - apply (IH c1 i Ho). rewrite Er. exact Hx.
   Qed.
 
@@ -97,7 +97,7 @@ Section Hist.
     cbn [Coin.run] in Hx. destruct (step c o) as [c1 x] eqn:Es. destruct (run c1 ops) as [c2 xs] eqn:Er.
     cbn [snd] in Hx. destruct i as [|i]; cbn [nth_error] in *.
     - injection Ho as ->. injection Hx as ->. cbn [Coin.step] in Es.
-      destruct (draw_integers c n dom nonce) as [c' r] eqn:Ed. injection Es as <- <-.
+      destruct (draw_integers c n dom nonce) as [c' r] eqn:Ed. injection Es as _ ->.
       apply draw_integers_ok_inv in Ed; [|assumption]. tauto.
     - apply (IH c1 i Ho). rewrite Er. exact Hx.
   Qed.
